@@ -53,7 +53,8 @@ def systems() -> dict:
 
 
 def vector_cases(system: str) -> list[tuple[str, str]]:
-    from symplyphysics import Vector, dot_vectors, vector_magnitude, scale_vector
+    from symplyphysics import Vector, dot_vectors, vector_magnitude, scale_vector, vector_unit
+    from symplyphysics.core.vectors.arithmetics import project_vector
     sy = systems()
     cart, curv = sy["cartesian"], sy[system]
     pts = CYL_POINTS if system == "cylindrical" else SPH_POINTS
@@ -75,11 +76,24 @@ def vector_cases(system: str) -> list[tuple[str, str]]:
             back = C.rebase(curv)
             out.append((f"roundtrip:{tag}", "" if vnear(back.components, full) else
                 f"round trip of {comps} gives {short(back.components)}"))
-            # scaling
-            sc = scale_vector(k, V).rebase(cart)
-            out.append((f"scale:{tag}", "" if vnear(sc.components, R.scale(k, want)) else
-                f"scaling {comps} by {k} in {system} gives {short(sc.components)} in Cartesian, "
-                f"reference {short(R.scale(k, want))}"))
+            # scaling (positive, negative, and the magnitude / unit vector of the scaled vector)
+            for kk in (k, -sp.Rational(5, 3)):
+                W = scale_vector(kk, V)
+                sc = W.rebase(cart)
+                out.append((f"scale:{tag}:{kk}", "" if vnear(sc.components, R.scale(kk, want)) else
+                    f"scaling {comps} by {kk} in {system} gives {short(sc.components)} in Cartesian, "
+                    f"reference {short(R.scale(kk, want))}"))
+                mw = vector_magnitude(W)
+                out.append((f"scale-magnitude:{tag}:{kk}", "" if near(mw, abs(kk) * sp.sqrt(R.norm2(
+                    want))) else f"magnitude of {comps} scaled by {kk} in {system} is "
+                    f"{short(sp.N(mw, 10))}, Cartesian {sp.N(abs(kk) * sp.sqrt(R.norm2(want)), 10)}"))
+                if n == 3:
+                    u = vector_unit(W).rebase(cart)
+                    wantu = R.scale(kk / (abs(kk) * sp.sqrt(R.norm2(want))), want)
+                    out.append((f"scale-unit:{tag}:{kk}", "" if vnear(u.components, wantu) else
+                        f"unit vector of {comps} scaled by {kk} in {system} is "
+                        f"{short([sp.N(c, 8) for c in u.components])} in Cartesian, reference "
+                        f"{short([sp.N(c, 8) for c in wantu])}"))
             mag = vector_magnitude(V)
             out.append((f"magnitude:{tag}", "" if near(mag, sp.sqrt(R.norm2(want))) else
                 f"magnitude of {comps} in {system} is {short(mag)}, Cartesian {sp.sqrt(R.norm2(want))}"))
@@ -90,6 +104,17 @@ def vector_cases(system: str) -> list[tuple[str, str]]:
         out.append((f"dot:{system}:{q1}:{q2}", "" if near(d, want) else
             f"dot product of {q1} and {q2} in {system} is {short(sp.N(d, 12))}, Cartesian "
             f"{short(sp.N(want, 12))}"))
+        # projection in the curvilinear system (acute and obtuse pairs): its Cartesian image is the
+        # projection of the images, and its magnitude agrees
+        P = project_vector(V1, V2)
+        c1, c2 = R.position(system, q1), R.position(system, q2)
+        wantp = R.scale(R.dot(c1, c2) / R.norm2(c2), c2)
+        out.append((f"project:{system}:{q1}:{q2}", "" if vnear(P.rebase(cart).components, wantp) else
+            f"projection of {q1} on {q2} in {system} is {short([sp.N(c, 8) for c in P.rebase(cart).components])}"
+            f" in Cartesian, reference {short([sp.N(c, 8) for c in wantp])}"))
+        out.append((f"project-magnitude:{system}:{q1}:{q2}", "" if near(vector_magnitude(P), sp.sqrt(
+            R.norm2(wantp))) else f"magnitude of the projection of {q1} on {q2} in {system} is "
+            f"{sp.N(vector_magnitude(P), 10)}, Cartesian {sp.N(sp.sqrt(R.norm2(wantp)), 10)}"))
         d2 = dot_vectors(V1.rebase(cart), V2.rebase(cart))
         out.append((f"dot-rebased:{system}:{q1}:{q2}", "" if near(d, d2) else
             f"dot product changes under re-expression: {short(sp.N(d, 12))} vs {short(sp.N(d2, 12))}"))
